@@ -114,6 +114,8 @@ ASSUMPTIONS = [
     'reference of the property is itself undefined: those boundary pairs are still run (optimised builds only, tag scalar-ub, '
     'off-domain) and judged against NumPy wrap-around (g++ -O1 wraps there); the in-domain classification (scalar_defined) is checked '
     'by running every in-domain integer request under UBSan',
+    'SIMDe AVX-512 sanitizer build of the integer harness: -fno-sanitize=signed-integer-overflow, because SIMDe itself emulates the 512-bit '
+    'integer adds / subs / mullos with + - * on signed vector types (reports come from /usr/include/simde/x86/avx512/*.h, not from nmtools)',
     'not provided by the library, not run: multiply on 8-bit (x86 SSE, x86 AVX, SIMDe) and 64-bit (x86 SSE, x86 AVX) element types '
     '(simd_op_t::mul has no branch and returns void: the call does not compile; the harness answers unsupported), unary ufuncs on '
     'integer element types (static_assert floating point in eval_unary), integer matmul in the x86 AVX and SIMDe contexts '
@@ -138,7 +140,7 @@ PARTIAL = [
     'elementwise.special-values',
 ]
 MANIFEST = dict(
-    text='Proof: 58 Lean theorems over all element counts / row lengths / ranks and all lane counts > 0: closed form of the packed loop, every '
+    text='Proof: 61 Lean theorems over all element counts / row lengths / ranks and all lane counts > 0: closed form of the packed loop, every '
          'packed access inside its buffer, packed chunks + tail partition [0,n); SIMD unary / same-shape binary = scalar evaluator for '
          'operands of either layout (column-major operands take the scalar path); 2-d broadcasting binary: every output cell written '
          'exactly once, operand offsets = NumPy broadcasting (incl. (1,1) operands), offsets in bounds, evaluator = NumPy broadcasting; '
@@ -166,7 +168,8 @@ MANIFEST = dict(
          '(fixes/C12-*.diff); two known findings stay open (NaN/-0.0 in min/max-built activations; SIMD matmul ignores a column-major '
          'lhs, repair in fixes/C12-matmul-lhs-layout-fallback.diff); open: the register type of the vector-extension contexts is 8/sizeof(T) '
          'times too wide and its extra lanes are never initialised (UBSan aborts on int8/16/32; values unaffected), repair in '
-         'fixes/C12-vector-extension-width.diff.',
+         'fixes/C12-vector-extension-width.diff; open: vector-extension lanes compute int8/int16 in the narrow signed type (wrap = signed '
+         'overflow, UB in the SIMD path only; values agree), repair in fixes/C12-vector-extension-signed-lanes.diff.',
     technique='Lean 4 induction proofs over element counts / lane counts + hardware differential (SIMD vs scalar evaluator, ASan)')
 
 
@@ -176,6 +179,12 @@ def lanes_of(ctx, dt):
 
 def hname(ctx, san=False):
     return 'h_c12_%s%s' % (ctx, '_san' if san else '')
+
+
+# without AVX-512 hardware flags SIMDe emulates _mm512_add_epi16 & co. by `+` on its own SIGNED vector types
+# (/usr/include/simde/x86/avx512/add.h:350 "signed integer overflow: 255 + 32766 cannot be represented in type 'short int'"):
+# third-party code, not nmtools; the rest of UBSan and ASan stay on for that build
+INT_SAN_EXTRA = {'simde512': ['-fno-sanitize=signed-integer-overflow']}
 
 
 def ihname(ctx, san=False):
@@ -194,7 +203,7 @@ def harness_specs(tier):
     for c, d in CTXS.items():
         specs.append(dict(name=ihname(c), src='h_c12i_%s.cpp' % c, flavour='fast', extra=d['extra']))
     for c in SAN_CTXS[tier]:
-        specs.append(dict(name=ihname(c, True), src='h_c12i_%s.cpp' % c, flavour='san', extra=CTXS[c]['extra']))
+        specs.append(dict(name=ihname(c, True), src='h_c12i_%s.cpp' % c, flavour='san', extra=CTXS[c]['extra'] + INT_SAN_EXTRA.get(c, [])))
     return specs
 
 
@@ -1031,13 +1040,39 @@ def pred_special_minmax(case):
     return 'nan' in d or '-0.0' in d
 
 
-def pred_vecext_uninit_lanes(case):
-    """signed integer element type narrower than 8 bytes through a vector-extension context in the sanitizer build
-    (UBSan sees the arithmetic on the never-initialised extra lanes of the over-wide register type)"""
-    if case.harness not in ('h_c12i_v128_san', 'h_c12i_v256_san', 'h_c12i_v512_san'):
+VECEXT_SAN = ('h_c12i_v128_san', 'h_c12i_v256_san', 'h_c12i_v512_san')
+
+
+def pred_vecext_signed_lane_overflow(case):
+    """int8 / int16 through a vector-extension context in the sanitizer build, some lane result outside the element type:
+    the vector lane computes in T (signed overflow), the scalar functor in int (defined wrap-around)"""
+    if case.harness not in VECEXT_SAN:
         return False
     kind, a = _args(case)
-    return kind in ('ibinary', 'iouter', 'ireduce', 'imatmul') and a.get('dtype') in ('i8', 'i16', 'i32')
+    dt = a.get('dtype')
+    if dt not in ('i8', 'i16') or kind not in ('ibinary', 'iouter', 'ireduce', 'imatmul'):
+        return False
+    if kind in ('ireduce', 'imatmul'):
+        return True          # lane partial sums / products of full-range data
+    lo, hi = irange(dt)
+    ld = np.array([int(v) for v in a['ldata'].split(',')], dtype=np.int64)
+    rd = np.array([int(v) for v in a['rdata'].split(',')], dtype=np.int64)
+    if kind == 'iouter':
+        z = IOP_NP[a['op']].outer(ld, rd)
+    else:
+        z = IOP_NP[a['op']](ld.reshape(_shape(a['lshape'])), rd.reshape(_shape(a['rshape'])))
+    return bool(((z < lo) | (z > hi)).any())
+
+
+def pred_vecext_uninit_lanes(case):
+    """signed integer element type narrower than 8 bytes through a vector-extension context in the sanitizer build, every
+    lane result of the INPUT inside the element type (otherwise: vecext_signed_lane_overflow): UBSan sees the arithmetic on
+    the never-initialised extra lanes of the over-wide register type"""
+    if case.harness not in VECEXT_SAN:
+        return False
+    kind, a = _args(case)
+    return (kind in ('ibinary', 'iouter', 'ireduce', 'imatmul') and a.get('dtype') in ('i8', 'i16', 'i32')
+            and not pred_vecext_signed_lane_overflow(case))
 
 
 REPAIRED_CLASSES = [('layout.column-major', pred_colmajor), ('binary.bcast-1x1', pred_bcast_1x1),
@@ -1050,4 +1085,5 @@ KNOWN_PREDICATES = {
     'special_values_minmax': pred_special_minmax,
     'matmul_col_lhs': pred_matmul_col_lhs,
     'vecext_uninit_lanes': pred_vecext_uninit_lanes,
+    'vecext_signed_lane_overflow': pred_vecext_signed_lane_overflow,
 }
